@@ -139,19 +139,22 @@ Section Measure.
     | _, _ => cur
     end.
 
+  (* a row may have more cells than there are columns: the loop stops at the
+     column count and the extra cells widen nothing *)
   Lemma row_widths_ok n r : forall pre cur,
     Forall (cell_ok W) r ->
-    length pre + length r <= n -> length (pre ++ cur) = n ->
+    length (pre ++ cur) = n ->
     row_widths n (length pre) (map mcell_of r) (map Z.of_nat (pre ++ cur))
     = Ok (map Z.of_nat (pre ++ zmax cur (map (cellw W) r))).
   Proof.
-    induction r as [|c r IH]; intros pre cur Hr Hlen Hn.
+    induction r as [|c r IH]; intros pre cur Hr Hn.
     - cbn [map row_widths]. destruct cur; reflexivity.
     - inversion Hr as [|? ? Hc Hr']; subst.
       cbn [map row_widths length] in *.
-      replace (length (pre ++ cur) <? length pre) with false
-        by (symmetry; apply Nat.ltb_ge; rewrite app_length; lia).
-      destruct cur as [|x cur']; [rewrite app_length in Hlen; simpl in Hlen; lia|].
+      destruct cur as [|x cur'].
+      { cbn [zmax]. rewrite !app_nil_r. rewrite Nat.leb_refl. reflexivity. }
+      replace (length (pre ++ x :: cur') <=? length pre) with false
+        by (symmetry; apply Nat.leb_gt; rewrite app_length; simpl; lia).
       rewrite map_app. cbn [map].
       rewrite idx_app_mid by (rewrite map_length; reflexivity). cbn [bind mc_w mcell_of].
       rewrite (tw_cellw c Hc).
@@ -170,7 +173,6 @@ Section Measure.
       rewrite IH.
       + cbn [zmax]. rewrite <- app_assoc. reflexivity.
       + exact Hr'.
-      + rewrite app_length. simpl. lia.
       + rewrite !app_length in *. simpl in *. lia.
   Qed.
 
@@ -189,7 +191,7 @@ Section Measure.
   Definition vrow_fits (n : nat) (r : vrow) : Prop := row_fits n r.
 
   Lemma body_widths_ok n rows : forall (f : nat -> nat),
-    Forall (row_fits n) rows -> Forall vrow_ok rows ->
+    Forall vrow_ok rows ->
     body_widths n (map mrow_of rows) (map Z.of_nat (map f (seq 0 n)))
     = Ok (map Z.of_nat
             (map (fun i => fold_left Nat.max
@@ -198,15 +200,14 @@ Section Measure.
                              (f i))
                  (seq 0 n))).
   Proof.
-    induction rows as [|r rows IH]; intros f Hfit Hok.
+    induction rows as [|r rows IH]; intros f Hok.
     - reflexivity.
-    - inversion Hfit as [|? ? Hf1 Hfit']; inversion Hok as [|? ? Ho1 Hok']; subst.
+    - inversion Hok as [|? ? Ho1 Hok']; subst.
       destruct r as [cs|]; cbn [map mrow_of option_map body_widths flat_map app].
       + pose proof (row_widths_ok n cs [] (map f (seq 0 n)) Ho1) as E.
         cbn [length app Nat.add] in E. rewrite E.
         * cbn [bind]. rewrite zmax_seq. rewrite IH by assumption.
           do 2 f_equal.
-        * simpl in Hf1. exact Hf1.
         * rewrite map_length, seq_length. reflexivity.
       + apply IH; assumption.
   Qed.
@@ -256,7 +257,7 @@ Section Measure.
     destruct (nth_error (cell_lines c) k); reflexivity.
   Qed.
 
-  Lemma row_to_lines_ok n r :
+  Lemma row_to_lines_fit n r :
     length r <= n ->
     row_to_lines n (map mcell_of r)
     = map (fun k => map (fun i => wat r i k) (seq 0 n))
@@ -282,5 +283,36 @@ Section Measure.
       + intros i Hi. apply in_seq in Hi. rewrite wat_wat_opt.
         replace (nth_error r i) with (@None vcell) by (symmetry; apply nth_error_None; lia).
         reflexivity.
+  Qed.
+
+  Lemma nth_error_firstn_lt {A} (l : list A) : forall n i, i < n -> nth_error (firstn n l) i = nth_error l i.
+  Proof.
+    induction l as [|a l IH]; intros n i H.
+    - rewrite firstn_nil. reflexivity.
+    - destruct n; [lia|]. destruct i; [reflexivity|]. simpl. apply IH. lia.
+  Qed.
+
+  (* cells beyond the column count are not laid out at all *)
+  Lemma row_to_lines_trunc n r :
+    row_to_lines n (map mcell_of r) = row_to_lines n (map mcell_of (firstn n r)).
+  Proof.
+    destruct (Nat.le_gt_cases (length r) n) as [H|H].
+    - rewrite firstn_all2 by exact H. reflexivity.
+    - unfold row_to_lines. rewrite !map_length, firstn_length.
+      rewrite (Nat.min_r (length r) n) by lia.
+      rewrite (Nat.min_l n (length r)) by lia. rewrite Nat.min_id.
+      rewrite !firstn_map, firstn_firstn, Nat.min_id. reflexivity.
+  Qed.
+
+  Lemma row_to_lines_ok n r :
+    row_to_lines n (map mcell_of r)
+    = map (fun k => map (fun i => wat r i k) (seq 0 n))
+          (seq 0 (Nat.max 1 (list_max (map cell_height (firstn n r))))).
+  Proof.
+    rewrite row_to_lines_trunc.
+    rewrite row_to_lines_fit by (apply firstn_le_length).
+    rewrite firstn_firstn, Nat.min_id.
+    apply map_ext. intros k. apply map_ext_in. intros i Hi. apply in_seq in Hi.
+    rewrite !wat_wat_opt, nth_error_firstn_lt by lia. reflexivity.
   Qed.
 End Measure.
